@@ -77,7 +77,8 @@ def verify_contract(c, src_index, unroll=0, timeout_ms=20000, registry=REGISTRY,
         try:
             cx = Ctx(it)
             p = c.setup(cx)
-            run.assume(c.pre(cx, **p))
+            _pre = c.pre(cx, **p)
+            run.assume(And(*_pre.values()) if isinstance(_pre, dict) else _pre)
             if first:
                 first = False
                 if run.solver.check() == z3.unsat:
